@@ -588,10 +588,11 @@ def c20o(ctx):
     fn = ctx.fn('mapproxy/util/times.py:parse_httpdate')
     g = fn.cfg
     # statements that re-bind the parsed date with something added to its year
-    moved = [n for n in g.find_stmts(lambda s: isinstance(s, ast.Assign) and contains(s.value, lambda x: isinstance(x, ast.BinOp) and isinstance(x.op, ast.Add) and
-                                                                                      any(isinstance(const_value(o), int) and const_value(o) >= 100 for o in (x.left, x.right))))]
+    moved = [n for n in g.find_stmts(lambda s: (isinstance(s, ast.Assign) and contains(s.value, lambda x: isinstance(x, ast.BinOp) and isinstance(x.op, ast.Add) and
+                                                                                       any(isinstance(const_value(o), int) and const_value(o) >= 100 for o in (x.left, x.right)))) or
+                                     (isinstance(s, ast.AugAssign) and isinstance(s.op, ast.Add) and isinstance(const_value(s.value), int) and const_value(s.value) >= 100))]
     ok = all(g.guarded(n, lambda at: at.op == '<' and isinstance(const_value(at.right), int) and const_value(at.right) <= 100 and
-                       contains(at.left, lambda y: isinstance(y, ast.Subscript) and const_value(y.slice) == 0), True) for n in moved)
+                       contains(fn.canon.expr(at.left), lambda y: isinstance(y, ast.Subscript) and const_value(y.slice) == 0), True) for n in moved)
     ctx.check(ok, 'parse_httpdate:only-two-digit-years-expanded', 'a century is only added to years below 100 (%d site(s))' % len(moved), fn,
               fail='parse_httpdate moves four digit years: an If-Modified-Since date before 1970 becomes a date in the far future and is answered '
                    '304 for every tile')
